@@ -22,6 +22,8 @@ import (
 	"encoding/json"
 	"fmt"
 	"log/slog"
+	"math"
+	"math/big"
 	"math/rand"
 	"os"
 	"path/filepath"
@@ -43,6 +45,7 @@ import (
 )
 
 const vfC14Unit = 10 * time.Second // one model clock unit
+const vfC14NoTag = -99             // the spec's NoTag
 
 var vfC14OwnSegments = false // set by TestVerifC14Gates only (each harness test runs in its own process)
 
@@ -182,6 +185,7 @@ type vfC14Cfg struct {
 	Tags    []string                `json:"tags"`
 	Conns   map[string]vfC14ConnCfg `json:"conns"`
 	Name    string                  `json:"name"`
+	Scale   string                  `json:"scale"` // "" identity; "extreme": model value class -> extreme ints
 }
 
 type vfC14MPeer struct {
@@ -239,11 +243,11 @@ func vfC14ParseState(raw json.RawMessage) (vfC14MState, error) {
 		}
 		mp.T = map[string]int{}
 		for t, v := range tags {
-			if v >= 0 {
+			if v != vfC14NoTag {
 				mp.T[t] = v
 			}
 		}
-		if dec >= 0 {
+		if dec != vfC14NoTag {
 			mp.T["d"] = dec // GetTagInfo lists decaying tags next to the plain ones
 		}
 		sort.Strings(mp.C)
@@ -271,6 +275,140 @@ type vfC14Sys struct {
 	lprot  map[string]map[string]bool // peer -> protection tags in force
 	protU  []string                   // protection tags ever used (for IsProtected(p, tag) probes)
 	skip   map[string]bool            // peers compare() leaves out (temporary entries a racing trim may or may not reach)
+	// tag ledger: what the tag operations delivered so far imply for each peer, WHATEVER its connection
+	// state was at the time of the operation (real values, i.e. after the scale map)
+	ltags   map[string]map[string]int // plain tags
+	ldec    map[string]*int           // value of the decaying tag d
+	lentry  map[string]bool           // an entry exists for the unconnected peer (early tags)
+	ltfirst map[string]time.Time      // when that early-tag entry was started
+	lmaybe  map[string]bool           // ... and a trim may have pruned it (expired, unprotected): either is fine
+	dfn     connmgr.DecayFn
+	bfn     connmgr.BumpFn
+	ldnext  time.Time
+	dclosed bool
+}
+
+// scale map of the VALUE dimension.  The model's tag values are small classes; the order-preserving map
+// "extreme" sends them to the ends of the int range, so that sums/differences of two peers' values leave it.
+var vfC14Extreme = map[int]int{-2: math.MinInt, -1: -100, 0: 0, 1: 100, 2: math.MaxInt}
+
+func (s *vfC14Sys) scale(v int) int {
+	if s.cfg.Scale == "extreme" {
+		r, ok := vfC14Extreme[v]
+		if !ok {
+			panic(fmt.Sprintf("no extreme value for class %d", v))
+		}
+		return r
+	}
+	return v
+}
+
+func (s *vfC14Sys) unscale(r int) int {
+	if s.cfg.Scale == "extreme" {
+		for k, v := range vfC14Extreme {
+			if v == r {
+				return k
+			}
+		}
+		panic(fmt.Sprintf("%d is not an extreme value", r))
+	}
+	return r
+}
+
+// touch: a tag operation on a peer without connections starts (or continues) an early-tag entry
+func (s *vfC14Sys) touch(p string) {
+	if len(s.lconns[p]) == 0 && !s.lentry[p] {
+		s.lentry[p], s.ltfirst[p] = true, s.clk.Now()
+	}
+}
+
+// noteTrim: a trim running at `at` may prune the early-tag entries that are expired and unprotected
+func (s *vfC14Sys) noteTrim(at time.Time) {
+	graceStart := at.Add(-time.Duration(s.cfg.Grace) * vfC14Unit)
+	for _, p := range s.cfg.Peers {
+		if len(s.lconns[p]) == 0 && s.lentry[p] && len(s.lprot[p]) == 0 && !s.ltfirst[p].After(graceStart) {
+			s.lmaybe[p] = true
+		}
+	}
+}
+
+func (s *vfC14Sys) ledgerDrop(p string) {
+	s.ltags[p], s.lentry[p], s.lmaybe[p] = map[string]int{}, false, false
+	delete(s.ldec, p)
+}
+
+// ledgerDecayRound: the decayer's tick at time now (contract: erased if rm, else the value becomes after)
+func (s *vfC14Sys) ledgerDecayRound(now time.Time) {
+	if s.cfg.DecMax == 0 || s.dclosed || s.ldnext.After(now) {
+		return
+	}
+	for p, v := range s.ldec {
+		if after, rm := s.dfn(connmgr.DecayingValue{Value: *v}); rm {
+			delete(s.ldec, p)
+		} else {
+			*v = after
+		}
+	}
+	s.ldnext = s.ldnext.Add(time.Duration(s.cfg.DecEvry) * vfC14Unit)
+}
+
+func (s *vfC14Sys) ledgerValue(p string) *big.Int {
+	sum := new(big.Int)
+	for _, v := range s.ltags[p] {
+		sum.Add(sum, big.NewInt(int64(v)))
+	}
+	if v := s.ldec[p]; v != nil {
+		sum.Add(sum, big.NewInt(int64(*v)))
+	}
+	return sum
+}
+
+// checkTagLedger: GetTagInfo(p).Value == sum of the plain tags + the current decaying value implied by the
+// operations on p (exact arithmetic), and the same tags are listed (a zero-valued tag may be left out).
+func (s *vfC14Sys) checkTagLedger() (string, string, any, any) {
+	for _, p := range s.cfg.Peers {
+		if s.skip[p] {
+			continue
+		}
+		ti := s.cm.GetTagInfo(s.pid[p])
+		if s.lmaybe[p] {
+			s.lmaybe[p] = false
+			if ti == nil {
+				s.ledgerDrop(p)
+				continue
+			}
+		}
+		want := map[string]int{}
+		for t, v := range s.ltags[p] {
+			if v != 0 {
+				want[t] = v
+			}
+		}
+		if v := s.ldec[p]; v != nil && *v != 0 {
+			want["d"] = *v
+		}
+		sum := s.ledgerValue(p)
+		got := map[string]int{}
+		gotV := 0
+		if ti != nil {
+			gotV = ti.Value
+			for t, v := range ti.Tags {
+				if v != 0 {
+					got[t] = v
+				}
+			}
+		}
+		if sum.IsInt64() && int64(gotV) == sum.Int64() && fmt.Sprint(got) == fmt.Sprint(want) {
+			continue
+		}
+		cls := "tag-total"
+		if !sum.IsInt64() {
+			cls = "tag-sum-overflows-int"
+		}
+		return cls, fmt.Sprintf("GetTagInfo(%s) differs from what the tag operations delivered for %s imply (plain tags + current decaying value, whatever the connection state at the time)", p, p),
+			map[string]any{"value": sum.String(), "tags": want}, map[string]any{"value": gotV, "tags": got, "entry": ti != nil}
+	}
+	return "", "", nil, nil
 }
 
 // the decay and bump functions the spec's DecayRes / BumpRes stand for
@@ -314,13 +452,15 @@ func vfC14New(cfg vfC14Cfg) (*vfC14Sys, error) { return vfC14NewKinds(cfg, "fixe
 func vfC14NewKinds(cfg vfC14Cfg, dk, bk string) (*vfC14Sys, error) {
 	s := &vfC14Sys{cfg: cfg, clk: clock.NewMock(), pid: map[string]peer.ID{}, conns: map[string]*vfC14Conn{},
 		byAddr: map[string]string{}, sink: &vfC14Sink{}, lconns: map[string]map[string]bool{},
-		lfirst: map[string]time.Time{}, lprot: map[string]map[string]bool{}, protU: []string{"x", "y"}}
+		lfirst: map[string]time.Time{}, lprot: map[string]map[string]bool{}, protU: []string{"x", "y"},
+		ltags: map[string]map[string]int{}, ldec: map[string]*int{}, lentry: map[string]bool{}, ltfirst: map[string]time.Time{}, lmaybe: map[string]bool{}}
 	s.clk.Set(time.Unix(1_700_000_000, 0))
 	sort.Strings(s.cfg.Peers)
 	for i, p := range s.cfg.Peers {
 		s.pid[p] = vfC14PeerID(p)
 		s.lconns[p] = map[string]bool{}
 		s.lprot[p] = map[string]bool{}
+		s.ltags[p] = map[string]int{}
 		_ = i
 	}
 	names := make([]string, 0, len(cfg.Conns))
@@ -362,6 +502,8 @@ func vfC14NewKinds(cfg vfC14Cfg, dk, bk string) (*vfC14Sys, error) {
 			cm.Close()
 			return nil, fmt.Errorf("%v %v", err1, err2)
 		}
+		s.dfn, s.bfn = dfn, bfn
+		s.ldnext = s.clk.Now().Add(time.Duration(cfg.DecEvry) * vfC14Unit)
 		s.dtag, err = cm.RegisterDecayingTag("d", time.Duration(cfg.DecEvry)*vfC14Unit, dfn, bfn)
 		if err != nil {
 			cm.Close()
@@ -383,15 +525,15 @@ func (s *vfC14Sys) lcount() int {
 
 // vfC14Pre is what the statement's trim clauses need to know about the moment a trim runs.
 type vfC14Pre struct {
-	count int             // connection count the delivered notifications imply
-	prot  map[string]bool // protected by at least one tag
-	grace map[string]bool // tracked and still inside the grace period at the time of the trim
-	value map[string]int  // GetTagInfo(p).Value just before the trim
+	count int                 // connection count the delivered notifications imply
+	prot  map[string]bool     // protected by at least one tag
+	grace map[string]bool     // tracked and still inside the grace period at the time of the trim
+	value map[string]*big.Int // the peer's tag total per the tag ledger (exact arithmetic) just before the trim
 	conns map[string][]string
 }
 
 func (s *vfC14Sys) pre(at time.Time) vfC14Pre {
-	p := vfC14Pre{count: s.lcount(), prot: map[string]bool{}, grace: map[string]bool{}, value: map[string]int{}, conns: map[string][]string{}}
+	p := vfC14Pre{count: s.lcount(), prot: map[string]bool{}, grace: map[string]bool{}, value: map[string]*big.Int{}, conns: map[string][]string{}}
 	graceStart := at.Add(-time.Duration(s.cfg.Grace) * vfC14Unit)
 	for _, name := range s.cfg.Peers {
 		p.prot[name] = len(s.lprot[name]) > 0
@@ -402,9 +544,7 @@ func (s *vfC14Sys) pre(at time.Time) vfC14Pre {
 			}
 			sort.Strings(p.conns[name])
 		}
-		if ti := s.cm.GetTagInfo(s.pid[name]); ti != nil {
-			p.value[name] = ti.Value
-		}
+		p.value[name] = s.ledgerValue(name)
 	}
 	return p
 }
@@ -435,8 +575,8 @@ func (s *vfC14Sys) l1Trim(force bool, pre vfC14Pre, closed []string) (string, st
 		}
 		for q := range closedOf {
 			for _, r := range s.cfg.Peers {
-				if closedOf[r] == 0 && eligible(r) && pre.value[r] < pre.value[q] {
-					return "trim-not-lowest-first", fmt.Sprintf("closed %s (value %d) while eligible %s (value %d) was kept", q, pre.value[q], r, pre.value[r])
+				if closedOf[r] == 0 && eligible(r) && pre.value[r].Cmp(pre.value[q]) < 0 {
+					return s.ovf("trim-not-lowest-first", pre, q, r), fmt.Sprintf("closed %s (value %s) while eligible %s (value %s) was kept", q, pre.value[q], r, pre.value[r])
 				}
 			}
 		}
@@ -465,12 +605,20 @@ func (s *vfC14Sys) l1Trim(force bool, pre vfC14Pre, closed []string) (string, st
 	}
 	for q := range closedOf {
 		for _, r := range s.cfg.Peers {
-			if closedOf[r] == 0 && len(pre.conns[r]) > 0 && pre.prot[r] == pre.prot[q] && pre.value[r] < pre.value[q] {
-				return "forcetrim-not-lowest-first", fmt.Sprintf("closed %s (value %d) while %s (value %d) of the same class was kept", q, pre.value[q], r, pre.value[r])
+			if closedOf[r] == 0 && len(pre.conns[r]) > 0 && pre.prot[r] == pre.prot[q] && pre.value[r].Cmp(pre.value[q]) < 0 {
+				return s.ovf("forcetrim-not-lowest-first", pre, q, r), fmt.Sprintf("closed %s (value %s) while %s (value %s) of the same class was kept", q, pre.value[q], r, pre.value[r])
 			}
 		}
 	}
 	return "", ""
+}
+
+// ovf: an ordering failure in which one of the two totals does not fit an int is the overflow class
+func (s *vfC14Sys) ovf(cls string, pre vfC14Pre, q, r string) string {
+	if !pre.value[q].IsInt64() || !pre.value[r].IsInt64() {
+		return "tag-sum-overflows-int"
+	}
+	return cls
 }
 
 func vfC14Keys(m map[string]bool) []string {
@@ -544,36 +692,66 @@ func (s *vfC14Sys) step(op vfh.Op) (string, string, any, any) {
 		nf.Connected(nil, c)
 		if len(s.lconns[c.pname]) == 0 {
 			s.lfirst[c.pname] = s.clk.Now()
+			s.lentry[c.pname] = false // the early-tag entry becomes the peer's entry: its tags are carried over
 		}
 		s.lconns[c.pname][c.name] = true
 	case "disconnected":
 		c := s.conns[op.S("c")]
 		nf.Disconnected(nil, c)
-		delete(s.lconns[c.pname], c.name)
+		if s.lconns[c.pname][c.name] {
+			delete(s.lconns[c.pname], c.name)
+			if len(s.lconns[c.pname]) == 0 {
+				s.ledgerDrop(c.pname) // the entry, and every tag with it, goes with the last connection
+			}
+		}
 	case "tag":
-		s.cm.TagPeer(s.pid[op.S("p")], op.S("t"), op.I("v"))
+		p, t, v := op.S("p"), op.S("t"), s.scale(op.I("v"))
+		s.cm.TagPeer(s.pid[p], t, v)
+		s.touch(p)
+		s.ltags[p][t] = v
 	case "untag":
 		s.cm.UntagPeer(s.pid[op.S("p")], op.S("t"))
+		delete(s.ltags[op.S("p")], op.S("t"))
 	case "upsert":
-		// the resulting tag value is compared with the model's in compare()
-		s.cm.UpsertTag(s.pid[op.S("p")], op.S("t"), func(x int) int { return x + 1 })
+		p, t := op.S("p"), op.S("t")
+		f := func(x int) int { return s.scale(s.unscale(x) + 1) }
+		s.cm.UpsertTag(s.pid[p], t, f)
+		s.touch(p)
+		s.ltags[p][t] = f(s.ltags[p][t])
 	case "bump":
-		err := s.dtag.Bump(s.pid[op.S("p")], op.I("dl"))
+		p := op.S("p")
+		err := s.dtag.Bump(s.pid[p], op.I("dl"))
 		synctest.Wait() // the decayer's loop has applied the command
-		if (err != nil) != op.B("err") {
-			return "L2:decay-api", fmt.Sprintf("Bump error %v", err), op.B("err"), err != nil
+		if err == nil {
+			s.touch(p)
+			cur := 0
+			if v := s.ldec[p]; v != nil {
+				cur = *v
+			}
+			nv := s.bfn(connmgr.DecayingValue{Value: cur}, op.I("dl"))
+			s.ldec[p] = &nv
+		}
+		if (err != nil) != s.dclosed {
+			return "L2:decay-api", fmt.Sprintf("Bump error %v", err), s.dclosed, err != nil
 		}
 	case "dremove":
-		err := s.dtag.Remove(s.pid[op.S("p")])
+		p := op.S("p")
+		err := s.dtag.Remove(s.pid[p])
 		synctest.Wait()
-		if (err != nil) != op.B("err") {
-			return "L2:decay-api", fmt.Sprintf("Remove error %v", err), op.B("err"), err != nil
+		if err == nil {
+			s.touch(p)
+			delete(s.ldec, p)
+		}
+		if (err != nil) != s.dclosed {
+			return "L2:decay-api", fmt.Sprintf("Remove error %v", err), s.dclosed, err != nil
 		}
 	case "dclose":
 		if err := s.dtag.Close(); err != nil {
 			return "MACHINERY", "Close: " + err.Error(), nil, nil
 		}
 		synctest.Wait()
+		s.dclosed = true
+		s.ldec = map[string]*int{}
 	case "protect":
 		s.cm.Protect(s.pid[op.S("p")], op.S("x"))
 		s.lprot[op.S("p")][op.S("x")] = true
@@ -585,6 +763,7 @@ func (s *vfC14Sys) step(op vfh.Op) (string, string, any, any) {
 		}
 	case "trim":
 		pre := s.pre(s.clk.Now())
+		s.noteTrim(s.clk.Now())
 		s.sink.take()
 		s.cm.TrimOpenConns(context.Background())
 		synctest.Wait()
@@ -603,6 +782,10 @@ func (s *vfC14Sys) step(op vfh.Op) (string, string, any, any) {
 		s.sink.take()
 		s.clk.Add(vfC14Unit)
 		synctest.Wait()
+		s.ledgerDecayRound(s.clk.Now())
+		if s.cfg.Silence > 0 {
+			s.noteTrim(s.clk.Now()) // the ticker may have trimmed
+		}
 		closed, _ := s.sink.take()
 		if !op.B("bg") && len(closed) == 0 {
 			return "", "", nil, nil
@@ -634,6 +817,17 @@ func (s *vfC14Sys) compare(m vfC14MState) (string, string, any, any) {
 			continue
 		}
 		mp := m.Peers[p]
+		if s.cfg.Scale != "" { // the model's value classes -> real values
+			t2, v2 := map[string]int{}, 0
+			for t, v := range mp.T {
+				if t != "d" {
+					v = s.scale(v)
+				}
+				t2[t] = v
+				v2 += v
+			}
+			mp.T, mp.V = t2, v2
+		}
 		ti := s.cm.GetTagInfo(s.pid[p])
 		tracked := len(s.lconns[p]) > 0
 		if ti != nil {
@@ -726,7 +920,7 @@ func (s *vfC14Sys) compareLedger() (string, string, any, any) {
 			}
 		}
 	}
-	return "", "", nil, nil
+	return s.checkTagLedger()
 }
 
 func vfC14Silence() { log = slog.New(slog.DiscardHandler) }
@@ -815,7 +1009,7 @@ func TestVerifC14Replay(t *testing.T) {
 									cls, what, exp, got = sys.compare(m)
 								}
 							}
-							if (cls == "" && degraded) || strings.HasPrefix(cls, "L2:") {
+							if cls == "" || strings.HasPrefix(cls, "L2:") {
 								if c2, w2, e2, g2 := sys.compareLedger(); c2 != "" {
 									cls, what, exp, got = c2, w2, e2, g2
 								}
@@ -1359,6 +1553,7 @@ func vfC14LoadScripts(path string) (map[string]any, []vfC14Script, error) {
 // gateApply performs one step of a burst (on the delivering goroutine) and keeps the ledger.
 func (s *vfC14Sys) gateApply(op vfh.Op) {
 	if op.Name() == "trim" {
+		s.noteTrim(s.clk.Now())
 		s.cm.trim() // the ticker's path: not serialised with TrimOpenConns by trimMutex
 		return
 	}
@@ -1390,6 +1585,9 @@ func vfC14RunScript(cfg vfC14Cfg, sc vfC14Script, k int, useTicker bool) (status
 		}
 	}
 	pre := sys.pre(sys.clk.Now())
+	if sc.Entry != "force" {
+		sys.noteTrim(sys.clk.Now())
+	}
 	sys.sink.take()
 	g := &vfC14Gate{}
 	if atStat {
